@@ -88,7 +88,7 @@ def leaf_annotation(spec, wrap):
     raise AssertionError(wrap)
 
 
-def build_value(desc, wrap, alias=False):
+def build_value(desc, wrap, alias=False, enum_keys=False):
     """alias=True: leaves of equal shape within one tree are the very same array object (tied weights)."""
     cache = {}
 
@@ -103,7 +103,8 @@ def build_value(desc, wrap, alias=False):
             arr = np.zeros(tuple(p))
         return (arr, 7) if wrap == "tuple" else arr
 
-    return pt.build(desc, payload)
+    # enum_keys: dict keys are members of str-valued Enums, == to (and hashing like) the plain strings: the same tree structure
+    return pt.build(desc, payload, key=(lambda k: pt.KEY_ENUM[k]) if enum_keys else (lambda k: k))
 
 
 def plain_parts(plain):
@@ -174,7 +175,7 @@ def check_case(ctx, case):
                 vals.append(np.zeros(pshape))
             else:
                 params.append(f"t{i}: PTALT" if (alt_last and i == len(trees) - 1) else f"t{i}: PT")
-                vals.append(build_value(trees[i], wrap, alias=bool(case.get('alias'))))
+                vals.append(build_value(trees[i], wrap, alias=bool(case.get('alias')), enum_keys=bool(case.get("enum_keys")) and i >= 1))
         src = f"def fn({', '.join(params)}):\n    return None\n"
         exec(compile(src, "<vf-c16>", "exec"), ns)
         with warnings.catch_warnings():
@@ -204,7 +205,7 @@ def check_case(ctx, case):
                 sizes_by_pos[i] = tuple(lf[1])
     nontrivial = len(trees) >= 2 and len(set(sizes_by_pos.values())) >= 2
     ctx.note([spec, wrap, case["trees"], plain], nontrivial,
-             classes=[f"wrap-{wrap}", f"ntrees-{len(trees)}", f"verdict-{'+'.join(sorted(allowed_all))}", f"mutation-{case['mutation']}"] + (["plain-same-name"] if plain else []) + (["plain-variadic"] if plain and len(plain) > 3 and "*" in plain[3] else []) + (["alt-last"] if alt_last else []) + (["aliased-leaves"] if case.get("alias") else []),
+             classes=[f"wrap-{wrap}", f"ntrees-{len(trees)}", f"verdict-{'+'.join(sorted(allowed_all))}", f"mutation-{case['mutation']}"] + (["plain-same-name"] if plain else []) + (["plain-variadic"] if plain and len(plain) > 3 and "*" in plain[3] else []) + (["alt-last"] if alt_last else []) + (["enum-dict-keys"] if case.get("enum_keys") and len(trees) >= 2 and "dict" in str(case["trees"][1]) else []) + (["aliased-leaves"] if case.get("alias") else []),
              sample={"spec": spec, "wrap": wrap, "trees": case["trees"], "plain": plain, "accepted": sorted(allowed_all)})
 
 
@@ -347,7 +348,7 @@ def c16_case(draw):
         if vnames and draw(st.integers(0, 2)) != 0:
             # a variadic parameter of the same name as the per-leaf variadic axis: the two never interact
             plain = [draw(st.sampled_from(["after", "before"])), vnames[0], draw(st.lists(st.sampled_from([7, 2, 3, 1]), max_size=3)), draw(st.sampled_from(["*", "*#"]))]
-    return {"alt_last": alt_last,"tokens": [c01.tok_json(t) for t in toks], "wrap": wrap, "trees": [gt.to_json(t) for t in trees], "plain": plain, "mutation": mutation,
+    return {"alt_last": alt_last, "enum_keys": draw(st.integers(0, 2)) == 0,"tokens": [c01.tok_json(t) for t in toks], "wrap": wrap, "trees": [gt.to_json(t) for t in trees], "plain": plain, "mutation": mutation,
             "alias": alias}
 
 
